@@ -60,7 +60,7 @@ PROPS = {
     'C11': {'jobs': [REASM], 'assumptions': [
         'sum of len(userData) over all chunks ever pushed < 2^63 (uint64 counter / int conversion in subtractNumBytes)']},
     'C02': {'jobs': [E2E_T], 'rule': E2E_RULE},
-    'C06': {'jobs': [E2E_PR, E2E_T, REASM], 'rule': E2E_RULE},
+    'C06': {'jobs': [E2E_PR, E2E_T, E2E_API, REASM], 'rule': E2E_RULE},
     'C07': {'jobs': [E2E_PR], 'rule': E2E_RULE},
     'C08': {'jobs': [E2E_SD], 'rule': E2E_RULE},
     'C04': {'jobs': [HSD, E2E_HS, E2E_T], 'assumptions': [
@@ -94,7 +94,7 @@ PROPS = {
     'C13': {'jobs': [dict(CODEC, pviol_prefix=['C13-'])], 'assumptions': [
         'the CRC is uninterpreted in the theorems; the driver recomputes every checksum with its own bitwise CRC32c, '
         'which the harness compares with hash/crc32 on random strings']},
-    'C03': {'jobs': [dict(CODEC, pviol_prefix=['C03-'])], 'assumptions': [
+    'C03': {'jobs': [dict(CODEC, pviol_prefix=['C03-']), ASND, E2E_PR], 'assumptions': [
         'decoder part only (Props/C03dec.lean): panics are the explicit panic outcomes of the L0 model; '
         'the harness runs every decode under recover() and a time box']},
 }
